@@ -318,6 +318,16 @@ class Evaluator:
             return None
         return [tuple(sx.conc(c) for c in t) for t in m]
 
+    def task_grid(self, array_name):
+        """number of task blocks per dimension when the producing op enumerates a full grid (ChunkKeys), else None"""
+        opname, _ = self.producer[array_name]
+        m = self.nodes[opname]["pipeline"].mappable
+        from cubed.primitive.blockwise import ChunkKeys
+
+        if isinstance(m, ChunkKeys):
+            return tuple(len(c) for c in m.chunks_normal)
+        return None
+
     def block_of(self, array_name, gidx):
         """(result, region, local index) for the element gidx of a produced array"""
         chunks = self.write_chunks(array_name)
@@ -325,6 +335,9 @@ class Evaluator:
         tl = self.task_list(array_name)
         if tl is not None and coords not in tl:
             return None, None, None
+        tg = self.task_grid(array_name)
+        if tg is not None and (len(tg) != len(coords) or any(not (c < g) for c, g in zip(coords, tg))):
+            return None, None, None  # no task of the operation writes this block: the element is never written
         res = self.run_task(array_name, coords)
         r, region = res[self.producer[array_name][1]]
         local = tuple(g - s.start for g, s in zip(gidx, region))
@@ -424,6 +437,11 @@ def walk_tasks(dag, coord_vars, ev=None):
         nb = []
         for n, c in zip(tgt.shape, wp.chunks):
             nb.append(1 if (isinstance(n, int) and n == 0) else -((-n) // c))
+        tg = ev.task_grid(an)
+        if tg is not None:
+            # the operation's tasks (one per key of its ChunkKeys grid) must be exactly the blocks of the array they write
+            if len(tg) != len(nb) or any(not (g == nbd) for g, nbd in zip(tg, nb)):
+                raise sx.Violated("task-grid-differs-from-the-output-grid", f"{opname} -> {an}: tasks over a {tg} grid, output has {tuple(nb)} blocks (chunks {wp.chunks}, shape {tgt.shape})")
         coords = []
         for d, nbd in enumerate(nb):
             v = coord_vars[d] if d < len(coord_vars) else 0
